@@ -64,19 +64,22 @@ type Obj struct {
 
 // AtomVal is one decided guard atom on a path.
 type AtomVal struct {
-	Key  string
-	T    *Term
-	Val  bool
-	Pos  token.Pos
-	Loop bool
+	Key   string
+	T     *Term
+	Val   bool
+	Pos   token.Pos
+	Loop  bool
+	Block *ssa.BasicBlock
 }
 
 // Event is a call encountered on a path.
 type Event struct {
 	Callee string
 	Args   []*Term
+	Addrs  []*Term // address terms of pointer/slice arguments (nil for scalars)
 	Pos    token.Pos
 	Result *Term
+	Block  *ssa.BasicBlock
 }
 
 // HashSum is one finalised hash transcript.
@@ -88,7 +91,9 @@ type HashSum struct {
 // Path is the summary of one control-flow path.
 type Path struct {
 	Atoms    []AtomVal
-	Kind     string // "return" or "panic"
+	Kind     string // "return", "panic", or for regions "stop"
+	StopAt   *ssa.BasicBlock // region mode: the block at which the path stopped
+	From     *ssa.BasicBlock // region mode: the last block executed before stopping
 	Results  []*Term
 	Events   []Event
 	Sums     []HashSum
@@ -144,10 +149,22 @@ type interp struct {
 	visits  map[*ssa.BasicBlock]int
 	hashes  []*Obj
 	depth   int
+	start   *ssa.BasicBlock
+	stopAt  func(b *ssa.BasicBlock) bool
+	curBlk  *ssa.BasicBlock
+	lazy    bool
 }
 
 // Enumerate enumerates the paths of fn.
 func Enumerate(fn *ssa.Function, m *Model) ([]*Path, error) {
+	return EnumerateRegion(fn, m, nil, nil)
+}
+
+// EnumerateRegion enumerates the paths that start at block start (nil = entry) and end at a return, a panic,
+// or on reaching a block for which stopAt is true (the start block itself counts when it is re-entered).
+// Values defined outside the region are evaluated lazily (phis become opaque leaves, allocations become
+// named cells) so that a loop body can be analysed for one arbitrary iteration.
+func EnumerateRegion(fn *ssa.Function, m *Model, start *ssa.BasicBlock, stopAt func(b *ssa.BasicBlock) bool) ([]*Path, error) {
 	if m.MaxPaths == 0 {
 		m.MaxPaths = 4000
 	}
@@ -157,7 +174,7 @@ func Enumerate(fn *ssa.Function, m *Model) ([]*Path, error) {
 		decs := work[len(work)-1]
 		work = work[:len(work)-1]
 		it := &interp{fn: fn, m: m, env: map[ssa.Value]val{}, globals: map[*ssa.Global]*Obj{}, path: &Path{Finals: map[string]*Term{}},
-			valu: map[string]bool{}, decs: decs, visits: map[*ssa.BasicBlock]int{}}
+			valu: map[string]bool{}, decs: decs, visits: map[*ssa.BasicBlock]int{}, start: start, stopAt: stopAt, lazy: start != nil}
 		taken, pruned, err := it.run()
 		if err != nil {
 			return out, err
@@ -562,11 +579,64 @@ func (it *interp) get(v ssa.Value) val {
 	if r, ok := it.env[v]; ok {
 		return r
 	}
+	if it.lazy {
+		if in, ok := v.(ssa.Instruction); ok {
+			switch x := v.(type) {
+			case *ssa.Phi:
+				it.env[x] = tv{Leaf(phiName(x))}
+			case *ssa.Call:
+				// a call made before the region: only fresh hash objects are re-created; everything else is opaque
+				if f := x.Common().StaticCallee(); f != nil && (f.String() == "crypto/sha512.New" || f.String() == "io.ReadFull" || (ssau.InModule(f) && it.m.Pure[ssau.QName(f)])) {
+					saved := it.path.Events
+					it.env[x] = it.call(x)
+					it.path.Events = saved
+				} else {
+					it.env[x] = it.resultVal(x, Leaf("outer:"+x.Name()))
+				}
+			case *ssa.Alloc:
+				name := x.Comment
+				if name == "" {
+					name = x.Name()
+				}
+				o := it.newObj(name, x.Type().(*types.Pointer).Elem())
+				o.Leaf = Leaf("local:" + name)
+				it.env[x] = ptr{o: o, idx: -1}
+			case *ssa.MakeSlice:
+				o := it.newObj("make@"+x.Name(), x.Type())
+				o.Leaf = Leaf("local:make@" + x.Name())
+				it.env[x] = slc{o: o, lo: 0, hi: -1}
+			case *ssa.Extract:
+				it.instr(in)
+			default:
+				saved := it.path.Events
+				it.instr(in)
+				it.path.Events = saved
+			}
+			if r, ok := it.env[v]; ok {
+				return r
+			}
+		}
+		if fv, ok := v.(*ssa.FreeVar); ok {
+			_ = fv
+		}
+	}
 	it.unrec("use of undefined value %s", v.Name())
 	return tv{Leaf("UNDEF:" + v.Name())}
 }
 
 func (it *interp) term(v ssa.Value) *Term { return contentOfVal(it.get(v)) }
+
+// phiName names a phi by its source variable and block so that different loops' counters stay distinct.
+func phiName(x *ssa.Phi) string {
+	name := x.Comment
+	if name == "" {
+		name = x.Name()
+	}
+	return fmt.Sprintf("PHI:%s@%d", name, x.Block().Index)
+}
+
+// PhiName is the exported form of phiName.
+func PhiName(x *ssa.Phi) string { return phiName(x) }
 
 func isLoopHeader(b *ssa.BasicBlock) bool {
 	for _, p := range b.Preds {
@@ -627,13 +697,23 @@ func (it *interp) run() (taken []bool, pruned bool, err error) {
 		return nil, true, fmt.Errorf("%s has no body", ssau.QName(it.fn))
 	}
 	b := it.fn.Blocks[0]
+	if it.start != nil {
+		b = it.start
+	}
 	var prev *ssa.BasicBlock
 	steps := 0
 	for {
+		if it.stopAt != nil && steps > 0 && it.stopAt(b) {
+			it.path.Kind = "stop"
+			it.path.StopAt = b
+			it.path.From = prev
+			break
+		}
 		it.visits[b]++
 		if it.visits[b] > 2 {
 			return it.decs, true, nil
 		}
+		it.curBlk = b
 		next, done := it.block(b, prev)
 		steps++
 		if steps > 20000 {
@@ -692,7 +772,7 @@ func (it *interp) decide(key string, t *Term, pos token.Pos, loop bool) bool {
 	if !loop {
 		it.valu[key] = d
 	}
-	it.path.Atoms = append(it.path.Atoms, AtomVal{Key: key, T: t, Val: d, Pos: pos, Loop: loop})
+	it.path.Atoms = append(it.path.Atoms, AtomVal{Key: key, T: t, Val: d, Pos: pos, Loop: loop, Block: it.curBlk})
 	return d
 }
 
@@ -702,11 +782,7 @@ func (it *interp) block(b *ssa.BasicBlock, prev *ssa.BasicBlock) (*ssa.BasicBloc
 		switch x := in.(type) {
 		case *ssa.Phi:
 			if loopHdr {
-				name := x.Comment
-				if name == "" {
-					name = x.Name()
-				}
-				it.env[x] = tv{Leaf("PHI:" + name)}
+				it.env[x] = tv{Leaf(phiName(x))}
 				// pointer-like phis in loops are not modelled
 				continue
 			}
@@ -717,6 +793,10 @@ func (it *interp) block(b *ssa.BasicBlock, prev *ssa.BasicBlock) (*ssa.BasicBloc
 				}
 			}
 			if idx < 0 {
+				if it.lazy {
+					it.env[x] = tv{Leaf(phiName(x))}
+					continue
+				}
 				it.unrec("phi without predecessor")
 				it.env[x] = tv{Leaf("UNDEF")}
 				continue
@@ -732,7 +812,7 @@ func (it *interp) block(b *ssa.BasicBlock, prev *ssa.BasicBlock) (*ssa.BasicBloc
 				return b.Succs[1], false
 			}
 			atom, pol := normAtom(ct)
-			loop := hasPhiLeaf(atom)
+			loop := hasPhiLeaf(atom) && !it.lazy
 			pos := x.Cond.Pos()
 			if !pos.IsValid() {
 				pos = x.Pos()
@@ -902,7 +982,9 @@ func (it *interp) instr(in ssa.Instruction) {
 		}
 		it.env[x] = tv{T(binName(x.Op), ta, tb)}
 	case *ssa.Store:
-		it.store(it.get(x.Addr), it.get(x.Val), x)
+		a, v := it.get(x.Addr), it.get(x.Val)
+		it.path.Events = append(it.path.Events, Event{Callee: "store", Args: []*Term{contentOfVal(v)}, Addrs: []*Term{addrOfVal(a)}, Pos: x.Pos(), Block: it.curBlk})
+		it.store(a, v, x)
 	case *ssa.Slice:
 		it.env[x] = it.slice(x)
 	case *ssa.Convert:
@@ -996,6 +1078,38 @@ func (it *interp) instr(in ssa.Instruction) {
 			it.env[v] = tv{Leaf("?")}
 		}
 	}
+}
+
+// addrOfVal describes where a pointer/slice value points: addr(object, index) or slice(object, lo, hi).
+func addrOfVal(v val) *Term {
+	switch x := v.(type) {
+	case ptr:
+		switch {
+		case x.idx == -1:
+			return T("addr", x.o.nameTerm())
+		case x.idx >= 0:
+			return T("addr", x.o.nameTerm(), num(x.idx))
+		default:
+			return T("addr", x.o.nameTerm(), x.idxT)
+		}
+	case slc:
+		if x.lo == -2 {
+			lo, hi := x.loT, x.hiT
+			if lo == nil {
+				lo = num(0)
+			}
+			if hi == nil {
+				hi = Leaf("")
+			}
+			return T("slice", x.o.nameTerm(), lo, hi)
+		}
+		hi := Leaf("")
+		if x.hi >= 0 {
+			hi = num(x.hi)
+		}
+		return T("slice", x.o.nameTerm(), num(x.lo), hi)
+	}
+	return nil
 }
 
 func (o *Obj) nameTerm() *Term {
@@ -1174,7 +1288,10 @@ func (it *interp) slice(x *ssa.Slice) val {
 		}
 		o, off, curHi = b.o, b.lo, b.hi
 	case tv:
-		// slicing a string value
+		// slicing a string / opaque slice value
+		if hi == nil && (lo == nil || lo.Op == "#0") {
+			return b
+		}
 		l, h := lo, hi
 		if l == nil {
 			l = num(0)
